@@ -37,9 +37,11 @@ TRUSTED = ['cbmc 6.11.0 C++ front end, SAT back end',
            'effective kernelProps), hash() = hash of one fixed string (same device), applyDependencyHash = identity (file system)}; '
            'modeDevice_t flattened to serial::device / openmp::device (virtual call resolved per group)']
 ASSUMPTIONS = ['hash idealisation: distinct byte strings hash to XOR-linearly independent 256-bit values (real hash(): C27 proves only absence of UB and determinism)',
-               'property values are dumped to byte strings of length 1..VLEN (quick 2, thorough 3) over all non-zero bytes; for key compositions that hash each '
-               'dump separately only the equality pattern of the values matters, so no generality is lost for two configurations (2 x 15 values, 255^VLEN strings); '
-               'for compositions that concatenate names and dumps the length bound is a bound',
+               'property values are dumped to byte strings of exactly VLEN (quick 2, thorough 3) arbitrary non-zero bytes, so that every string length stays concrete; '
+               'for key compositions that hash each dump separately only the equality pattern of the values matters, so no generality is lost for two configurations '
+               '(2 x 15 values, 255^VLEN strings) and the groups are labelled proof; for compositions that concatenate names and dumps (kernelPropertyHash) the '
+               'fixed length is a bound (coincidences that need values of different lengths, or a source text equal to a "name:value" string, are not explored) and '
+               'the groups are labelled bounded, LEVEL other',
                'process environment held fixed: compiler_vendor, include_occa, link_occa and the device hash are equal in both configurations',
                'dependency (header file) hashes are outside (C07, not applicable)']
 NOT_REACHED = ['applyDependencyHash / build.json dependencies (file system)', 'io::hashDir, cache directory layout, locking (C08/C09)',
@@ -147,12 +149,16 @@ namespace occa {
 }
 ''' % dict(cls=cls_text, members='\n'.join(hash_members), xor_t=xor_t, json_hash='\n'.join(json_hash),
            serial=serial, openmp=openmp, header=header, setup=setup, extra='\n'.join(extra))
-    return text, fns
+    return text, fns, bool(extra)
 
 
 def build(ctx):
     from vp import replay_C06
-    text, fns = unit(ctx)
+    text, fns, concatenating = unit(ctx)
+    # A composition that hashes every value dump on its own is decided completely by the equality pattern of the
+    # values, which fixed-length symbolic strings realise without loss.  A composition that concatenates names and
+    # dumps (kernelPropertyHash) is checked for value strings of the stated length only: labelled bounded.
+    globals()['LEVEL'] = 'other' if concatenating else 'proof'
     src = text + ctx.contract('C06/harness.cpp')
     thorough = ctx.tier == 'thorough'
     vlen = 3 if thorough else 2
@@ -167,8 +173,8 @@ def build(ctx):
         groups.append(Group(
             name='key/' + name, sources={'c06.cpp': src, 'model_c.c': ctx.contract('C06/model_c.c')}, entry='h_keys', lang='cpp', defines=defs,
             unwind=49, object_bits=12, min_obligations=15, functions=fns, canary='CANARY', canary_label='canary',
-            strength='proof', timeout=int(os.environ.get('C06_TIMEOUT', '600')),
-            bound='value strings of length <= %d (no loss of generality unless names and values are concatenated)' % vlen,
+            strength='bounded' if concatenating else 'proof', timeout=int(os.environ.get('C06_TIMEOUT', '600')),
+            bound='value dumps are strings of exactly %d arbitrary non-zero bytes (names and values are concatenated before hashing)' % vlen,
             param='mode=%s compose=%s' % (md, compose),
             note='loops: 8 hash words, interning pool <= %d strings, strings <= 32 bytes: constant capacities, asserted' % pool,
             replay=None if os.environ.get('C06_NO_REPLAY') else replay_C06.replay))
